@@ -63,5 +63,5 @@ func runC17RecordKept(c *Ctx, onStreamClose *ssa.Function) {
 		}
 		c.RequireGate("C17.3-record-dropped-only-when-empty", w.Fn, empty, []ssa.Instruction{w.Instr}, "delete(service.streams, id)")
 	}
-	c.Min("C17.3-record-dropped-only-when-empty", 2)
+	c.Min("C17.3-record-dropped-only-when-empty", 1) // one site suffices: refactorings route every drop through pruneStream (benign4/C17/3)
 }
